@@ -52,26 +52,29 @@ theorem coherent_step (F : Fns α) (st : State α) (op : Op α) (h : Coherent F 
 
 /-! ## what "current" means: the mutators store their arguments -/
 
-/-- `set_pathloss(p[, pe])` makes `p` (with the interference columns `pe` appended
-    on the ExtInt class) the current path loss, `set_pathloss(None)` removes it;
-    the channel, the layout and the filters are untouched. -/
-theorem set_pathloss_sets_current (F : Fns α) (st : State α) (p pe : Mat α) :
+/-- An accepted `set_pathloss(p[, pe])` makes `p` (with the interference columns
+    `pe` appended on the ExtInt class) the current path loss, `set_pathloss(None)`
+    removes it; the channel, the layout and the filters are untouched. -/
+theorem set_pathloss_sets_current (F : Fns α) (st : State α) (p pe : Mat α)
+    (hok : setPLCheck Cfg.fixed st (some p) pe = none) :
     let st' := (step Cfg.fixed F st (.setPL (some p) pe)).1
     st'.pl = some (if st.isExt then List.zipWith (· ++ ·) p pe else p)
     ∧ (step Cfg.fixed F st (.setPL none pe)).1.pl = none
     ∧ st'.raw = st.raw ∧ st'.nr = st.nr ∧ st'.nt = st.nt ∧ st'.k = st.k ∧ st'.w = st.w := by
-  simp only [step, doSetPL, Cfg.fixed, if_true]
+  have hnone : setPLCheck Cfg.fixed st none pe = none := by simp [setPLCheck]
+  simp only [step, hok, hnone]
+  simp only [doSetPL, Cfg.fixed, if_true]
   by_cases he : st.isExt = true
   · simp [he]
   · simp [he]
 
-/-- `randomize` / a valid `init_from_channel_matrix` make the drawn / given
+/-- An accepted `randomize` / `init_from_channel_matrix` makes the drawn / given
     matrix the current raw channel and the given layout (completed by the
     interference "users" on the ExtInt class) the current layout; filters and
     noise variance are kept; the stored per-link path loss is kept iff it still
     has one entry per link (`K × _K`), otherwise dropped. -/
 theorem reinit_sets_current (F : Fns α) (st : State α) (M : Mat α) (nr nt : List Nat) (K : Nat)
-    (ntE : List Nat) :
+    (ntE : List Nat) (hok : randCheck Cfg.fixed st.isExt nr nt K ntE = none) :
     let L := fullLayout st.isExt nr nt K ntE
     let st' := (step Cfg.fixed F st (.randomize M nr nt K ntE)).1
     (initCheck M L.1 L.2.1 L.2.2.1 = true →
@@ -84,6 +87,9 @@ theorem reinit_sets_current (F : Fns α) (st : State α) (M : Mat α) (nr nt : L
                     else none) := by
   intro L st'
   refine ⟨fun h => init_eq_randomize F st M nr nt K ntE h, ?_⟩
+  have : st' = install Cfg.fixed { st with extK := L.2.2.2 } M L.1 L.2.1 L.2.2.1 := by
+    simp only [st', step, hok, doRandomize, L]
+  rw [this]
   exact install_fields { st with extK := L.2.2.2 } M L.1 L.2.1 L.2.2.1
 
 /-- `set_post_filter(w)` and `noise_var = v` store their argument and touch nothing else. -/
@@ -134,6 +140,31 @@ theorem reads_do_not_change_views (F : Fns α) (st : State α) (op : Op α) (hr 
     ∧ specH F (step Cfg.fixed F st op).1 = specH F st
     ∧ specBigW (step Cfg.fixed F st op).1 = specBigW st :=
   sameInputs_spec F (read_sameInputs F st op hr)
+
+/-- The remaining public observers (R7): `K` / `Nr` / `Nt` / `extIntNt`, `pathloss`,
+    `big_W`, `noise_var`, `last_noise` return the current configuration (never a
+    cached copy of an older one), and `corrupt_concatenated_data(X)` returns
+    `W^H (big_H X + noise)` with the current `big_H` and filters. -/
+theorem observers_return_current (F : Fns α) (isExt : Bool) (ops : List (Op α)) (X : Mat α)
+    (noise : Option (Mat α)) :
+    let st := reach F isExt ops
+    (step Cfg.fixed F st .readLayout).2
+        = .layout st.userK st.nrU st.ntU (if st.isExt then st.nt.drop (st.nt.length - st.extK) else [])
+    ∧ (step Cfg.fixed F st .readPL).2 = .optMat st.pl
+    ∧ (step Cfg.fixed F st .readBigWView).2 = .optMat (specBigW st)
+    ∧ (step Cfg.fixed F st .readNoiseVar).2 = .optScalar st.noiseVar
+    ∧ (step Cfg.fixed F st .readLastNoise).2 = .optMat st.lastNoise
+    ∧ ((st.noiseVar.isSome → noise.isSome) →
+        (step Cfg.fixed F st (.corruptCat X noise)).2
+            = .rx [specReceivedCat F st X noise] (specLastNoise st noise)
+        ∧ (step Cfg.fixed F st (.corruptCat X noise)).1.lastNoise = specLastNoise st noise) := by
+  intro st
+  have h := reach_coherent F isExt ops
+  refine ⟨rfl, rfl, ?_, rfl, rfl, ?_⟩
+  · show Out.optMat (readBigW st).2 = _
+    rw [(readBigW_spec F st h).1]
+  · intro hn
+    exact ⟨(doCorruptCat_spec F st X noise h hn).1, (doCorruptCat_spec F st X noise h hn).2.1⟩
 
 /-! ## all views agree, block by block -/
 
@@ -316,15 +347,53 @@ theorem negative_noise_var_rejected (F : Fns α) (st : State α) (v : α) (h : F
     step Cfg.fixed F st (.setNoise (some v)) = (st, .err .AssertionError) := by
   simp [step, doSetNoise, h]
 
-/-- `init_from_channel_matrix` with a matrix whose shape is not
-    `(sum Nr, sum Nt)` or with layout lists whose length is not `K` raises
-    `ValueError`; on the plain class every view is unchanged. -/
+/-- R4 — a call that raises leaves the object as it was.  Whatever the operation and
+    its arguments: if it returns an error (`ValueError` of `init_from_channel_matrix` /
+    `randomize` / `set_pathloss`, `IndexError` of a too small path loss or of an index
+    out of range, `AssertionError` of a negative noise variance, `AttributeError` of an
+    ExtInt-only view on the plain class) then the raw channel, the layout, `K`,
+    `extIntK`, the path loss, the filters, the noise variance and `last_noise` are
+    unchanged — hence every view is — and the caches stay coherent. -/
+theorem rejected_call_changes_nothing (F : Fns α) (st : State α) (op : Op α) (e : PyErr)
+    (h : (step Cfg.fixed F st op).2 = .err e) :
+    SameInputs (step Cfg.fixed F st op).1 st
+    ∧ (step Cfg.fixed F st op).1.lastNoise = st.lastNoise
+    ∧ specBigH F (step Cfg.fixed F st op).1 = specBigH F st
+    ∧ specH F (step Cfg.fixed F st op).1 = specH F st
+    ∧ specBigW (step Cfg.fixed F st op).1 = specBigW st := by
+  obtain ⟨h1, h2⟩ := step_err_unchanged F st op e h
+  exact ⟨h1, h2, sameInputs_spec F h1⟩
+
+/-- `init_from_channel_matrix` with a matrix whose shape is not `(sum Nr, sum Nt)` or
+    with layout lists whose length is not `K` raises `ValueError` and (both classes)
+    changes nothing at all — in particular not the stored antenna counts or `extIntK`;
+    likewise `randomize` with layout lists whose length is not `K`. -/
 theorem bad_init_rejected (F : Fns α) (st : State α) (M : Mat α) (nr nt : List Nat) (K : Nat)
-    (hp : st.isExt = false) (hbad : initCheck M nr nt K = false) :
-    (step Cfg.fixed F st (.init M nr nt K [])).2 = .err .ValueError
-    ∧ specBigH F (step Cfg.fixed F st (.init M nr nt K [])).1 = specBigH F st
-    ∧ specH F (step Cfg.fixed F st (.init M nr nt K [])).1 = specH F st := by
-  simp [step, doInit, fullLayout, hp, hbad, specBigH, specH, specHFull, State.hNoPL]
+    (ntE : List Nat) :
+    let L := fullLayout st.isExt nr nt K ntE
+    (initCheck M L.1 L.2.1 L.2.2.1 = false →
+      step Cfg.fixed F st (.init M nr nt K ntE) = (st, .err .ValueError))
+    ∧ ((L.1.length ≠ L.2.2.1 ∨ L.2.1.length ≠ L.2.2.1) →
+      step Cfg.fixed F st (.randomize M nr nt K ntE) = (st, .err .ValueError)) := by
+  intro L
+  constructor
+  · intro hbad
+    simp [step, doInit, hbad, L, Cfg.fixed]
+  · intro hbad
+    have : randCheck Cfg.fixed st.isExt nr nt K ntE = some .ValueError := by
+      simp only [randCheck, Cfg.fixed, Bool.true_and]
+      rw [if_pos]
+      simp only [Bool.or_eq_true, bne_iff_ne, ne_eq]
+      exact hbad
+    simp [step, this]
+
+/-- `set_pathloss` with a matrix smaller than `K × _K` raises `IndexError`, with an
+    interference path loss whose number of rows differs raises `ValueError`; nothing
+    changes. -/
+theorem bad_pathloss_rejected (F : Fns α) (st : State α) (p pe : Mat α) (e : PyErr)
+    (hbad : setPLCheck Cfg.fixed st (some p) pe = some e) :
+    step Cfg.fixed F st (.setPL (some p) pe) = (st, .err e) := by
+  simp [step, hbad]
 
 /-- Reading a block outside the layout raises `IndexError`. -/
 theorem hkl_out_of_range (F : Fns α) (isExt : Bool) (ops : List (Op α)) (hv : Valid F isExt ops)
